@@ -20,6 +20,9 @@ package database
 //@ pred ResultShape(rs []*ovsdb.OperationResult) := forall i: int :: 0 <= i && i < len(rs) ==> (rs[i] != nil || (exists j: int :: 0 <= j && j < i && rs[j] != nil && rs[j].Error != ""))
 //@ pred AllOK(rs []*ovsdb.OperationResult) := forall i: int :: 0 <= i && i < len(rs) ==> (rs[i] != nil && rs[i].Error == "")
 
+// read-only queries of the committed database
+//@ func Database.CheckIndexes
+//@ modifies nothing
 //@ func Database.NewTransaction
 //@ modifies nothing
 //@ ensures result != nil
